@@ -502,7 +502,7 @@ func c13Run(x *verifkit.Ctx, c tCase) error {
 func TestVerifC13Merge(t *testing.T) {
 	verifkit.Run(t, verifkit.Spec[tCase]{
 		Property: "C13", Unit: "merge_sampling", CrashReplay: true,
-		Rule: "2..5 parts of 1..8 spans over traces trace-000..005 (unique span ids, status tag ok/err, timestamps out of order but all spans of a trace within the enforced fragment gap (merge grace), traces 1000/50/0 ns apart; in 1 of 6 cases one trace " +
+		Rule: "2..5 parts of 1..8 spans over traces trace-000..005 (unique span ids, status tag ok/err, timestamps out of order; either all spans of a trace within one window of the enforced fragment gap (merge grace) with traces 1000/50/0 ns apart, or - in a third of the cases - chains in which every fragment lies within the gap of the previous fragment of its trace; in a quarter of the cases one trace is re-timed so that its block in a part outside the merge widens both ends of the range of the blocks before it and its other fragments lie within the gap of the late end only; in 1 of 6 cases one trace " +
 			"carries 3..5 spans of 600..900 KiB in different parts so that the merged trace crosses the 2 MiB block limit), any subset of >= 1 parts merged and the rest left in the " +
 			"table's snapshot, sampler in {none, drop-by-id, drop-unless-error-span, drop-if-short, error, panic, wrong verdict size} with every " +
 			"projection, raw or decoded staging, Decide batch caps {default,1,2,3 traces} x {plan, 64 KiB, 1 MiB, 3 MiB}; oracle: per trace all-or-nothing " +
@@ -547,9 +547,28 @@ func TestVerifC13Merge(t *testing.T) {
 				}
 			}
 			spacing := rapid.SampledFrom([]int{1000, 50, 0}).Draw(t, "spacing")
-			for p := range c.Parts {
-				for i := range c.Parts[p] {
-					c.Parts[p][i].T = int64(10000 + c.Parts[p][i].Trace*spacing + rapid.IntRange(0, int(c13Grace)).Draw(t, "t"))
+			if rapid.IntRange(0, 2).Draw(t, "chain") == 0 {
+				// chain layout: every fragment of a trace lies within the grace of the previously generated fragment of that trace, so a
+				// trace may stretch over several grace widths (the guard's assumption is about the gap between fragments, not the length)
+				last := map[int]int64{}
+				jitter := rapid.SampledFrom([]int{400, 40, 0}).Draw(t, "chainjitter")
+				for p := range c.Parts {
+					for i := range c.Parts[p] {
+						tr := c.Parts[p][i].Trace
+						prev, ok := last[tr]
+						if !ok {
+							prev = int64(10000 + rapid.IntRange(0, jitter).Draw(t, "chainbase"))
+						}
+						next := prev + int64(rapid.IntRange(-int(c13Grace), int(c13Grace)).Draw(t, "chainstep"))
+						c.Parts[p][i].T = next
+						last[tr] = next
+					}
+				}
+			} else {
+				for p := range c.Parts {
+					for i := range c.Parts[p] {
+						c.Parts[p][i].T = int64(10000 + c.Parts[p][i].Trace*spacing + rapid.IntRange(0, int(c13Grace)).Draw(t, "t"))
+					}
 				}
 			}
 			perm := rapid.Permutation(seq(np)).Draw(t, "perm")
@@ -559,6 +578,9 @@ func TestVerifC13Merge(t *testing.T) {
 			}
 			c.Merge = append([]int(nil), perm[:nmerge]...)
 			sort.Ints(c.Merge)
+			if rapid.IntRange(0, 3).Draw(t, "enclose") == 0 {
+				c13Enclose(t, &c, &id)
+			}
 			nd := rapid.IntRange(0, 4).Draw(t, "ndrop")
 			for i := 0; i < nd; i++ {
 				c.Drop = append(c.Drop, rapid.IntRange(0, 5).Draw(t, "drop"))
@@ -586,6 +608,96 @@ func TestVerifC13Merge(t *testing.T) {
 		Check:        c13Run,
 		MinLabelFrac: map[string]float64{"a trace was dropped": 0.1, "fragments outside the merge": 0.2, "trace spread over merged parts": 0.3, "late part with an id below the base snapshot's": 0.05},
 	})
+}
+
+// c13Enclose rewrites the timestamps of one trace so that, in a part left outside the merge, its block widens BOTH ends of the time range
+// accumulated by the blocks written before it (blocks are written in trace-id order), while the fragments of that trace in the merged
+// parts lie within the grace of the late end only. Every fragment stays within the grace of another fragment of its trace.
+func c13Enclose(t *rapid.T, c *tCase, id *int) {
+	inMerge := map[int]bool{}
+	for _, i := range c.Merge {
+		inMerge[i] = true
+	}
+	type cand struct{ part, trace int }
+	var cands []cand
+	for p := range c.Parts {
+		if inMerge[p] {
+			continue
+		}
+		lowest := 1 << 30
+		for _, s := range c.Parts[p] {
+			lowest = min(lowest, s.Trace)
+		}
+		seen := map[int]bool{}
+		for _, s := range c.Parts[p] {
+			if s.Trace == lowest || seen[s.Trace] || s.Big > 0 {
+				continue
+			}
+			seen[s.Trace] = true
+			merged := false
+			for _, m := range c.Merge {
+				for _, ms := range c.Parts[m] {
+					if ms.Trace == s.Trace {
+						merged = true
+					}
+				}
+			}
+			if merged {
+				cands = append(cands, cand{p, s.Trace})
+			}
+		}
+	}
+	if len(cands) == 0 {
+		return
+	}
+	pick := rapid.SampledFrom(cands).Draw(t, "enclosepick")
+	lo, hi := int64(1<<62), int64(-1<<62)
+	for _, s := range c.Parts[pick.part] {
+		if s.Trace != pick.trace {
+			lo, hi = min(lo, s.T), max(hi, s.T)
+		}
+	}
+	if hi-lo+2 > int64(c13Grace) {
+		return
+	}
+	slack := int(int64(c13Grace) - (hi - lo + 2))
+	below := rapid.IntRange(0, slack).Draw(t, "enclosebelow")
+	above := rapid.IntRange(0, slack-below).Draw(t, "encloseabove")
+	bmin, bmax := lo-1-int64(below), hi+1+int64(above)
+	var own []int
+	for i, s := range c.Parts[pick.part] {
+		if s.Trace == pick.trace {
+			own = append(own, i)
+		}
+	}
+	if len(own) == 1 {
+		*id++
+		c.Parts[pick.part] = append(c.Parts[pick.part], tSpan{Trace: pick.trace, ID: *id})
+		own = append(own, len(c.Parts[pick.part])-1)
+	}
+	for k, i := range own {
+		switch k {
+		case 0:
+			c.Parts[pick.part][i].T = bmin
+		case 1:
+			c.Parts[pick.part][i].T = bmax
+		default:
+			c.Parts[pick.part][i].T = bmin + int64(rapid.IntRange(0, int(bmax-bmin)).Draw(t, "enclosemid"))
+		}
+	}
+	// every other fragment of the trace: within the grace of the late end, in [hi+grace+1-back, bmax+grace]
+	back := rapid.SampledFrom([]int{0, 0, 5, 60}).Draw(t, "encloseback")
+	for p := range c.Parts {
+		if p == pick.part {
+			continue
+		}
+		for i := range c.Parts[p] {
+			if c.Parts[p][i].Trace == pick.trace {
+				from := hi + int64(c13Grace) + 1 - int64(back)
+				c.Parts[p][i].T = from + int64(rapid.IntRange(0, int(bmax+int64(c13Grace)-from)).Draw(t, "enclosefar"))
+			}
+		}
+	}
 }
 
 func seq(n int) []int {
